@@ -19,6 +19,7 @@ import (
 	"io"
 	"log/slog"
 	"regexp"
+	"runtime/debug"
 	"strings"
 
 	"github.com/ajitpratap0/GoSQLX/pkg/models"
@@ -449,6 +450,9 @@ func Check() *common.Check {
 			"small-scope hypothesis: a carry-over needs at most 4 (5) operations to set up",
 		},
 		Enumerate: func(e *common.Enum) {
+			// millions of short-lived parses over a live heap of ~10 MB: with the default
+			// GC pacing three quarters of the CPU time is background sweeping
+			debug.SetGCPercent(800)
 			depth := 4
 			if e.Thorough() {
 				depth = 5
